@@ -45,6 +45,21 @@ static void check(const TimeZone& tz, const char* name, long long e, long long m
     if (sgn(z.compareTo(later)) != -1 || sgn(later.compareTo(z)) != 1 || z.compareTo(z) != 0)
       bad("compareTo-same-zone", name, e, z.compareTo(later), d);
   }
+  // ordering against instants far away (more than 2^31 s apart, half and a quarter of the range), in fixed offsets
+  {
+    static const long long kFar[] = {2147483648LL, 2147483649LL, 3000000000LL, 4000000000LL, 1073741824LL, 2147483647LL};
+    OffsetDateTime here = OffsetDateTime::forEpochSeconds((acetime_t) e, TimeOffset::forMinutes(0));
+    for (long long d : kFar) for (int sgnd = -1; sgnd <= 1; sgnd += 2) {
+      long long f = e + sgnd * d;
+      if (f <= (long long) INT32_MIN + 90000 || f >= (long long) INT32_MAX - 90000) continue;
+      OffsetDateTime far = OffsetDateTime::forEpochSeconds((acetime_t) f, TimeOffset::forMinutes(sgnd * 330));
+      ZonedDateTime farz = ZonedDateTime::forEpochSeconds((acetime_t) f, TimeZone::forTimeOffset(TimeOffset::forMinutes(-sgnd * 60)));
+      ZonedDateTime herez = ZonedDateTime::forEpochSeconds((acetime_t) e, TimeZone::forUtc());
+      gN += 2; gNT += 2;
+      if (sgn(here.compareTo(far)) != -sgnd || sgn(far.compareTo(here)) != sgnd) bad("odt-compareTo-far", name, e, here.compareTo(far), f);
+      if (sgn(herez.compareTo(farz)) != -sgnd || sgn(farz.compareTo(herez)) != sgnd) bad("compareTo-far", name, e, herez.compareTo(farz), f);
+    }
+  }
   OffsetDateTime od = OffsetDateTime::forEpochSeconds((acetime_t) e, z.timeOffset());
   if (od.toEpochSeconds() != e) bad("odt-roundtrip", name, e, od.toEpochSeconds(), 0);
   for (size_t i = 0; i < targets.size(); i++) {
